@@ -1,7 +1,7 @@
 /* world_err.c -- LPC error raising (DESIGN 3.3): error(), bad_arg(), bad_argument() and fatal() are NO_RETURN and longjmp in the
  * driver.  Model: record the error, run the harness' error epilogue, end the path.  "Raises an LPC error"
  * is therefore an allowed outcome and everything up to the raise is checked.  fatal() = driver terminates. */
-#include <config.h>
+#include "all_types.h"
 #include "std.h"
 #include "lpc/types.h"
 #include "verif.h"
